@@ -3,6 +3,7 @@
 // C33 (accept_synchronization), and the source.rs parts of C10 (c10_*) and C05 (c05_*).
 // Compiled in the transformed copy (HashMap -> VecMap, see /verif/transforms.json) with the C clock
 // model (kani/clock.c) because NtpSource holds a HashMap and reads tokio::time::Instant::now().
+#![cfg(feature = "verif-xrepo")] // compiled only in the transformed copy (needs the declared transforms)
 #![allow(unused_imports, dead_code, clippy::all)]
 use super::*;
 use crate::packet::v5::{NtpClientCookie, NtpEra, NtpFlags, NtpHeaderV5, NtpMode, NtpServerCookie, NtpTimescale};
@@ -1665,7 +1666,8 @@ fn c12_canary_v3_accepted_while_upgrading() {
 // The statement's claim on ONE concrete datagram: NTPv5, stratum 0, poll 127 ("never"), auth-NAK
 // flag set, no authenticated / encrypted field, one untrusted uid field echoing the request's uid,
 // client cookie echoing the request. Everything in it is visible on the wire to an on-path attacker.
-// Claim (C07): no action, no state change. The real code returns [Demobilize].
+// Claim (C07): no action, no state change. (Before the repair recorded in known-findings.txt the
+// real code returned [Demobilize].)
 incoming_harness!(c07_b_unauth_v5_nak_deny_witness, 4, {
     let uid: [u8; 32] = [7; 32];
     let origin: u64 = 0x0102_0304_0506_0708;
@@ -1705,6 +1707,9 @@ incoming_harness!(c07_b_unauth_v5_nak_deny_witness, 4, {
     assert!(first.is_none(), "C07: unauthenticated NTPv5 NAK+deny datagram produced an action (Demobilize)");
     assert!(snap(&s) == before);
     kani::cover!(true, "reachable");
+    // the source owns an 8-slot cookie stash; its drop glue is not part of the obligation
+    drop(acts);
+    core::mem::forget(s);
 });
 
 
